@@ -20,6 +20,7 @@ class _State:
     norm_mode = 'exact'      # 'exact' | 'abstract'
     solve_mode = 'gauss'     # 'gauss' | 'unknowns'
     arange_hook = None
+    decade_log = False
     calls = {}
 
 
@@ -77,6 +78,13 @@ def _filled(shape, val, dtype):
         a.fill(val)
         return a
     return None
+
+
+def log_dispatch(x, *a, **kw):
+    if state.decade_log and isinstance(x, SR):
+        from . import decimal
+        return decimal.LogVal(x)
+    return log(x, *a, **kw)
 
 
 def zeros(shape, dtype=None, **kw):
@@ -334,7 +342,7 @@ sin = _ew('sin', _np.sin, lambda v: _np.sin(v))
 
 class Facade:
     """The object bound to `np` in the shadow modules."""
-    _over = dict(zeros=zeros, ones=ones, array=array, sqrt=sqrt, log=log, exp=exp,
+    _over = dict(zeros=zeros, ones=ones, array=array, sqrt=sqrt, log=log_dispatch, exp=exp,
                  cos=cos, sin=sin, abs=_abs, absolute=_abs, angle=angle, conj=conj,
                  conjugate=conj, sign=sign, isscalar=isscalar, linalg=linalg,
                  copy=copy, arange=arange)
